@@ -16,23 +16,30 @@ Monitors (all judged on what the real objects returned / what the wrapped callab
   multilinear  constants and functions linear in each coordinate are reproduced up to the rounding allowance;
   errbound     |cache - f| <= sum_d H_d^2 max|d2f/dx_d2| + allowance, H_d = largest gap among the four recorded node
                coordinates around the point in dimension d (K = 1 per dimension, derivation below);
-  bounds       a cache with function_boundaries and one without agree up to the rounding allowance.
+  bounds       a cache with function_boundaries and one without agree up to the rounding allowance;
+  scale_exact / scale   cache(2^k f) == 2^k cache(f) bit for bit / cache(shift + c f) == shift + c cache(f) to rounding.
 
-Rounding allowance (stated once, used by node / multilinear / errbound / bounds):
-    tol = 1e-9 S + A_local,   A_local = 64 eps S prod_d [1 + 2 rho_d th1_d + 8 rho_d^2 (1 + rho_d) th2_d]
+Rounding allowance (stated once, used by node / multilinear / errbound / bounds / scale); everything in it is relative
+to the function's own scales, nothing is absolute:
+    the wrapped function is shift + scale * F; its magnitude is split into a constant part S_off (|shift| + constant term
+    of F, max with |bound_min|, |bound_max| when value bounds are supplied) and a varying part S_v
+    tol = 1e-9 S_v + 64 eps (4 S_off + S_v prod_d [1 + 2 rho_d th1_d + 8 rho_d^2 (1 + rho_d) th2_d])
     rho_d = (extent_d + 2 resolution_d) / h_d,min   (position of a cell in units of the cell width in the coordinates the
             class normalises to [0, 1] over the area; h_d,min = smallest gap between RECORDED node coordinates)
-    th1_d = min(1, H_d max|df/dx_d| / S_f), th2_d = min(4, 6 H_d^2 max|d2f/dx_d2| / S_f)
-  S_f = magnitude bound of the function (sum of absolute term magnitudes over the recorded hull), S = max(S_f,
-  |bound_min|, |bound_max|) when value bounds are supplied ((v - min)/delta*delta + min rounds at eps (|v| + |min|)).
-  A_local is eps times the summed magnitude of the monomials of the cell cubic in the area-normalised coordinates (local
-  coefficients a_0 <= S_f, a_1 ~ H f', a_2, a_3 <= 6 H^2 max|f''|, multiplied by (2 rho)^k): the true conditioning of the
-  documented scheme.  It is translation invariant on purpose: the distance of the area from the origin must not cost
-  digits (the former absolute-coordinate evaluation, repaired in d28c1dd, lost eps (|x|/spacing)^3 per axis; the
-  unchanged code stays 4..5 orders of magnitude below tol at |x|/spacing up to 1e9).  Node exactness is thereby judged
-  relative to the magnitude of f.  The bounds clause allows 2 tol (two caches).  Comparisons whose allowance exceeds
-  1e-3 S (under-resolved steep functions in 3-D) cannot separate a defect from cancellation: they are still judged but
-  counted under <monitor>_weak.  far1d/far2d/far3d count the deciding comparisons made at |x|/spacing >= 1e4.
+    th1_d = min(1, H_d max|df/dx_d| / S_v), th2_d = min(4, 6 H_d^2 max|d2f/dx_d2| / S_v)
+  S_v prod[...] is the summed magnitude of the monomials of the cell cubic in the area-normalised coordinates (local
+  coefficients a_1 ~ H f', a_2, a_3 <= 6 H^2 max|f''|, multiplied by (2 rho)^k): the true conditioning of the documented
+  scheme, translation invariant and homogeneous of degree one in the function.  The bounds and scale clauses allow 2 tol
+  (two caches).  Comparisons whose allowance exceeds 1e-3 S_v cannot separate a defect from cancellation: they are still
+  judged but counted under <monitor>_weak.  far1d/far2d/far3d count the deciding comparisons made at |x|/spacing >= 1e4.
+  Genuine limits of double precision that are not judged (counted as skips): 64 (S_off + S_v prod g) >= 1e300 (the
+  monomials of the cell cubic overflow) and magnitudes below 1e-290 (denormal intermediates).
+
+Scale equivariance: for the magnitude classes (scale = 2^k with amplitudes 1e-300..1e300, arbitrary scales, large
+offset + tiny variation) a second cache is built around the base function F with the value bounds scaled back; for a
+power of two and no shift the values must satisfy cache(2^k F) == 2^k cache(F) BIT FOR BIT (every operation of the scheme
+is linear in the samples and the pivoting of the solver depends on the constraint matrix only), judged where the scaled
+magnitude and the base magnitude exceed 1e-250 and the values are below 1e300; otherwise to 2 tol.
 
 Why K = 1: the cached interpolant is a tensor product of a 1-D operator P that matches values at the two cell nodes and
 uses secant slopes over the neighbouring nodes (P reproduces linear functions, |P g| <= 1.5 max|g|).  In 1-D
@@ -67,6 +74,9 @@ RULE = ("random 1-/2-/3-D caching problems: area extent 1e-3..1e2 per axis at of
         "(classes origin/near/mid/far), 2..80 nodes per axis (3-D: 2..24, thorough ..40) incl. resolution > extent, plus "
         "the class farfine for all three dimensions alike (narrow finely resolved areas far from the origin: |x0| 1e3..1e6, "
         "extent 0.1..100, node spacing 1e-2..1e-4 of the extent along one axis, |x|/spacing up to 1e9, curved functions), "
+        "function magnitude classes for all dimensions alike: unit (amplitude 1e-2..1e2), pow2 / anyscale (the same kinds "
+        "times 2^k or an arbitrary factor, amplitudes 1e-298..1e296, half of them 1e-16..1e-5), offset (offset 1e1..1e10 times "
+        "the variation), "
         "wrapped function from {constant, multilinear, quadratic, product of sines, sine of a sum, exponential, steep "
         "Gaussian}, value bounds absent/tight/loose/degenerate/narrow; 14..44 in-area points (uniform, on/near nominal "
         "nodes, 4e-7 inside the boundary, duplicates) and 6..10 out-of-area points driven through 4..5 fresh caches in "
@@ -86,8 +96,11 @@ TECHNIQUE = ("runtime monitoring: history independence (fresh caches driven with
              "reference-model oracle (multilinear exactness with computed cancellation allowance, h^2 max|f''| bound)")
 ASSUMPTIONS = ["wrapped functions are deterministic, finite and pure (the recording wrapper only appends to a list)",
                "in-area = at least 3e-7 inside every face of the area, out-of-area = at least 3e-7 outside one face",
-               "rounding allowance 1e-9 S + 64 eps x magnitude of the monomials of the cell cubic in the area-normalised "
-               "coordinates (translation invariant); clauses whose allowance exceeds 1e-3 S count as *_weak only",
+               "rounding allowance 1e-9 S_v + 64 eps (4 S_off + magnitude of the monomials of the cell cubic in the area-"
+               "normalised coordinates), S_v / S_off = varying / constant part of the function's magnitude (translation "
+               "invariant, homogeneous in the function); clauses whose allowance exceeds 1e-3 S_v count as *_weak only",
+               "magnitudes whose cell-cubic monomials reach 1e300 or that lie below 1e-290 are outside double precision "
+               "for this scheme and are not judged numerically (history / area clauses still are)",
                "each case runs in a forked child (os.fork + pipe); a child killed by a signal is a violation crash:<Class>:<SIG>",
                "value bounds are finite with min <= max"]
 ASAN_MODULES = ['cherab.core.math.caching.caching1d', 'cherab.core.math.caching.caching2d', 'cherab.core.math.caching.caching3d', 'cherab.core.math.interpolators.utility']
@@ -95,7 +108,8 @@ ASAN = dict(cases=600, workers=8, timecap=240)
 QUICK = dict(cases=600, workers=2, timecap=30)
 THOROUGH = dict(cases=40000, workers=16, timecap=600)
 REQUIRED = {"history": 15000, "repeat": 1000, "outside_raise": 2000, "outside_passthrough": 4000, "inside": 25000,
-            "node": 4000, "multilinear": 1500, "errbound": 3000, "bounds": 3000, "far1d": 500, "far2d": 500, "far3d": 250}
+            "node": 4000, "multilinear": 1500, "errbound": 3000, "bounds": 3000, "far1d": 500, "far2d": 500, "far3d": 250,
+            "scale_exact": 1200, "scale": 500}
 
 EPS = 2.220446049250313e-16
 SKIN = 3e-7
@@ -108,12 +122,45 @@ ROUNDOFF_KEY = "roundoff:%s:absolute-coordinate-cancellation"
 # ------------------------------------------------------------------------------------------------
 
 class Fn:
-    """F(u_1..u_d); mag(hull) bounds |F| and its internal term magnitudes, curv(hull)[d] bounds |d2F/du_d2|."""
+    """Base function F(u_1..u_d) (called directly) and the wrapped function shift + scale * F (see phys()).
+    For the WRAPPED function: mag(hull) bounds its magnitude incl. internal term magnitudes, split(hull) = (constant part,
+    varying part) of that magnitude, grad(hull)[d] / curv(hull)[d] bound |d/du_d| and |d2/du_d2|."""
 
     def __init__(self, fd, dim):
         self.fd = fd
         self.dim = dim
         self.kind = fd["kind"]
+        self.scale = float(fd.get("scale", 1.0))
+        self.shift = float(fd.get("shift", 0.0))
+
+    def base(self):
+        fd = dict(self.fd)
+        fd.pop("scale", None)
+        fd.pop("shift", None)
+        return Fn(fd, self.dim)
+
+    def mag(self, hull):
+        return abs(self.shift) + abs(self.scale) * self._mag0(hull)
+
+    def split(self, hull):
+        o, m = self._off0(), self._mag0(hull)
+        return abs(self.shift) + abs(self.scale) * o, abs(self.scale) * max(m - o, 0.0)
+
+    def grad(self, hull):
+        return [abs(self.scale) * g for g in self._grad0(hull)]
+
+    def curv(self, hull):
+        return [abs(self.scale) * c for c in self._curv0(hull)]
+
+    def _off0(self):
+        fd, k = self.fd, self.kind
+        if k == "const":
+            return abs(fd["a"])
+        if k in ("multilinear", "quadratic"):
+            return sum(abs(c) for mask, c in fd["terms"] if mask == 0)
+        if k in ("sinprod", "sinsum", "gauss"):
+            return abs(fd["b"])
+        return 0.0
 
     def __call__(self, *u):
         fd = self.fd
@@ -155,7 +202,7 @@ class Fn:
             return fd["a"] * math.exp(-0.5 * t) + fd["b"]
         raise ValueError("unknown function kind %r" % k)
 
-    def mag(self, hull):
+    def _mag0(self, hull):
         fd = self.fd
         k = self.kind
         um = [max(abs(lo), abs(hi)) for lo, hi in hull]
@@ -180,7 +227,7 @@ class Fn:
             return abs(fd["a"]) * math.exp(t)
         raise ValueError(k)
 
-    def grad(self, hull):
+    def _grad0(self, hull):
         """bounds of |dF/du_d| over the hull"""
         fd = self.fd
         k = self.kind
@@ -205,13 +252,13 @@ class Fn:
         if k in ("sinprod", "sinsum"):
             return [abs(fd["a"]) * abs(fd["k"][d]) for d in range(self.dim)]
         if k == "exp":
-            m = self.mag(hull)
+            m = self._mag0(hull)
             return [m * abs(fd["k"][d]) for d in range(self.dim)]
         if k == "gauss":
             return [abs(fd["a"]) * 0.61 / fd["s"][d] for d in range(self.dim)]
         raise ValueError(k)
 
-    def curv(self, hull):
+    def _curv0(self, hull):
         fd = self.fd
         k = self.kind
         if k in ("const", "multilinear"):
@@ -221,7 +268,7 @@ class Fn:
         if k in ("sinprod", "sinsum"):
             return [abs(fd["a"]) * fd["k"][d] ** 2 for d in range(self.dim)]
         if k == "exp":
-            m = self.mag(hull)
+            m = self._mag0(hull)
             return [m * fd["k"][d] ** 2 for d in range(self.dim)]
         if k == "gauss":
             # |g''| <= 1 for g(t) = exp(-t^2/2); the other factors are <= 1
@@ -230,7 +277,18 @@ class Fn:
 
 
 def phys(F, centre, ext):
-    """f(x) = F((x - c)/e) as a plain Python callable of `dim` floats."""
+    """f(x) = shift + scale * F((x - c)/e) as a plain Python callable of `dim` floats (scale 1 / shift 0 are not applied at
+    all, so that a power-of-two scale is an exact scaling of every value)."""
+    g = _phys0(F, centre, ext)
+    sc, sh = F.scale, F.shift
+    if sc == 1.0 and sh == 0.0:
+        return g
+    if sh == 0.0:
+        return lambda *x: sc * g(*x)
+    return lambda *x: sh + sc * g(*x)
+
+
+def _phys0(F, centre, ext):
     dim = F.dim
     if dim == 1:
         c0, e0 = centre[0], ext[0]
@@ -361,6 +419,23 @@ def gen_case(rng, tier):
     ext = [hi[d] - lo[d] for d in range(dim)]
     centre = [0.5 * (lo[d] + hi[d]) for d in range(dim)]
     fd = _gen_func(rng, dim, kind)
+    # ---- magnitude class: the wrapped function is shift + scale * F --------------------------------------------------
+    mclass = str(rng.choice(["unit", "pow2", "anyscale", "offset"], p=[0.5, 0.28, 0.08, 0.14]))
+    if mclass != "unit":
+        m0 = Fn(fd, dim).mag([(-0.7, 0.7)] * dim)
+        m0 = m0 if (m0 > 0 and math.isfinite(m0)) else 1.0
+        if mclass == "offset":
+            target = float(10 ** rng.uniform(-12, 12))
+        elif rng.random() < 0.5:
+            target = float(10 ** rng.uniform(-16, -5))           # small enough for any absolute threshold, no underflow issues
+        else:
+            target = float(10 ** rng.uniform(-298, 296))
+        sc = 2.0 ** int(min(max(round(math.log2(target) - math.log2(m0)), -1000), 1000))
+        if mclass == "anyscale":
+            sc *= float(rng.uniform(1.0, 2.0))
+        fd["scale"] = float(sc)
+        if mclass == "offset":      # large offset, comparatively tiny variation
+            fd["shift"] = float((1 if rng.random() < 0.5 else -1) * 10 ** rng.uniform(1, 10) * sc * m0)
     # ---- points --------------------------------------------------------------------------------
     safe_lo = [lo[d] + 4e-7 for d in range(dim)]
     safe_hi = [hi[d] - 4e-7 for d in range(dim)]
@@ -417,7 +492,7 @@ def gen_case(rng, tier):
     f = phys(F, centre, ext)
     vals = [f(*p) for p in pts]
     vmin, vmax = min(vals), max(vals)
-    span = max(vmax - vmin, 1e-3 * max(abs(vmin), abs(vmax)), 1e-300)
+    span = max(vmax - vmin, 1e-3 * max(abs(vmin), abs(vmax)), 1e-320)
     bclass = str(rng.choice(["none", "tight", "loose", "degenerate", "narrow"], p=[0.3, 0.3, 0.2, 0.1, 0.1]))
     if bclass == "none":
         bounds = None
@@ -445,7 +520,7 @@ def gen_case(rng, tier):
     orders = [dict(name="sorted", nbe=False, seq=o_sorted), dict(name="reversed", nbe=True, seq=o_rev),
               dict(name="random", nbe=bool(rng.random() < 0.5), seq=o_rand),
               dict(name="clustered", nbe=bool(rng.random() < 0.5), seq=o_clu)]
-    return dict(dim=dim, lo=lo, hi=hi, res=res, nn=nn, offclass=offclass, func=fd, bounds=bounds, bclass=bclass,
+    return dict(dim=dim, lo=lo, hi=hi, res=res, nn=nn, offclass=offclass, mclass=mclass, func=fd, bounds=bounds, bclass=bclass,
                 pts=pts, outs=outs, orders=orders)
 
 
@@ -613,25 +688,26 @@ def _grid(nodes, dim):
 
 
 def _envelope(F, case, nodes, pts, bounds):
-    """Rounding allowance and local node spacings.
+    """Rounding allowance and local node spacings, relative to the function's own scales.
 
-    tol_round = 1e-9 S + A_local,  A_local = 64 eps S prod_d g_d,  g_d = 1 + 2 rho_d th1_d + 8 rho_d^2 (1 + rho_d) th2_d
+    The magnitude of the wrapped function is split into a constant part S_off (|shift| + constant term; max with the
+    value bounds when supplied) and a varying part S_v.
+    tol_round = 1e-9 S_v + 64 eps (4 S_off + S_v prod_d g_d),  g_d = 1 + 2 rho_d th1_d + 8 rho_d^2 (1 + rho_d) th2_d
     rho_d = L_d / h_d with L_d = extent_d + 2 resolution_d (the span the class documents it normalises to [0, 1]) and h_d
-    the smallest gap between recorded node coordinates: the position of a cell in units of the cell width in the
-    coordinates normalised to the caching area.  th1_d = min(1, H_d max|df/dx_d| / S_f), th2_d = min(4, 6 H_d^2
-    max|d2f/dx_d2| / S_f).  A_local is eps times the summed magnitude of the monomials of the cell cubic in those local
-    coordinates (cell coefficients a_0 <= S_f, a_1 ~ H f', a_2, a_3 <= 6 H^2 max|f''|, each multiplied by (2 rho)^k).  It
-    does not depend on where the area lies: the distance from the origin must not cost digits.
+    the smallest gap between recorded node coordinates.  th1_d = min(1, H_d max|df/dx_d| / S_v), th2_d = min(4, 6 H_d^2
+    max|d2f/dx_d2| / S_v).  S_v prod g is the summed magnitude of the monomials of the cell cubic in the area-normalised
+    coordinates (cell coefficients a_0 <= S, a_1 ~ H f', a_2, a_3 <= 6 H^2 max|f''|, each multiplied by (2 rho)^k).  Nothing
+    in it is absolute: it scales with the function and does not depend on where the area lies.
     """
     dim = case["dim"]
     axes, xmax, hmin = _grid(nodes, dim)
     ext = [case["hi"][d] - case["lo"][d] for d in range(dim)]
     centre = case["_centre"]
     hull = [(min((axes[d][0] - centre[d]) / ext[d], -0.5), max((axes[d][-1] - centre[d]) / ext[d], 0.5)) for d in range(dim)]
-    Sf = F.mag(hull)
-    if not (Sf > 0 and math.isfinite(Sf)):
-        Sf = 1e-300
-    S = Sf if bounds is None else max(Sf, abs(bounds[0]), abs(bounds[1]))
+    Soff, Sv = F.split(hull)           # constant part / varying part of the magnitude of the wrapped function
+    if bounds is not None:
+        Soff = max(Soff, abs(bounds[0]), abs(bounds[1]))
+    S = Soff + Sv
     P = np.array(pts, dtype=float).reshape(-1, dim)
     ok = np.ones(len(pts), dtype=bool)
     Hs = np.zeros((len(pts), dim))
@@ -650,16 +726,20 @@ def _envelope(F, case, nodes, pts, bounds):
     rho, rho_abs, g = [], [], 1.0
     for d in range(dim):
         Hd = float(Hs[ok, d].max()) if ok.any() else (float(np.diff(axes[d]).max()) if axes[d].size > 1 else ext[d])
-        th1 = min(1.0, Hd / ext[d] * G[d] / Sf)
-        th2 = min(4.0, 6.0 * (Hd / ext[d]) ** 2 * cu[d] / Sf)
+        th1 = min(1.0, Hd / ext[d] * G[d] / Sv) if Sv > 0 else 0.0
+        th2 = min(4.0, 6.0 * (Hd / ext[d]) ** 2 * cu[d] / Sv) if Sv > 0 else 0.0
         r = (ext[d] + 2.0 * case["res"][d]) / hmin[d]
         rho.append(r)
         rho_abs.append(xmax[d] / hmin[d])
         g *= 1.0 + 2.0 * r * th1 + 8.0 * r * r * (1.0 + r) * th2
-    a_local = 64.0 * EPS * S * g
-    tol = 1e-9 * S + a_local
-    return dict(S=S, Sf=Sf, tol=tol, weak=bool(tol > 1e-3 * S), rho=rho, rho_abs=rho_abs, axes=axes, Hs=Hs, ok=ok, cu=cu,
-                ext=ext, a_local=a_local)
+    a_local = 64.0 * EPS * (4.0 * Soff + Sv * g)
+    tol = 1e-9 * Sv + a_local
+    # the class forms products of samples and inverse node spacings: beyond this magnitude intermediate monomials overflow,
+    # below it they become denormal -- genuine limits of double precision, not judged
+    terms = (Soff + Sv * g) * 64.0
+    regime = "overflow" if not (terms < 1e300) else ("underflow" if 0.0 < S < 1e-290 else "ok")
+    return dict(S=S, Soff=Soff, Sv=Sv, tol=tol, weak=bool(Sv > 0 and tol > 1e-3 * Sv), rho=rho, rho_abs=rho_abs, axes=axes,
+                Hs=Hs, ok=ok, cu=cu, ext=ext, a_local=a_local, regime=regime)
 
 
 def _judge(ctx, name, err, tol, weak, cname=""):
@@ -712,8 +792,13 @@ def _clauses(ctx, case, F, f, lo, hi, bounds, pts, vals, nodes, cache, diag=Fals
     if not nodes:
         return fails, False
     env = _envelope(F, case, nodes, pts, bounds)
+    if env["regime"] != "ok":
+        if not diag:
+            ctx.skip("function magnitude x monomial growth in the %s range of double precision: numerical clauses not judged" % env["regime"])
+        return fails, False
     S, allow, weak = env["S"], env["tol"], env["weak"]
-    info = dict(allowance=allow, a_local=env["a_local"], rho_local=env["rho"], x_over_spacing=env["rho_abs"], S=S, fkind=F.kind)
+    info = dict(allowance=allow, a_local=env["a_local"], rho_local=env["rho"], x_over_spacing=env["rho_abs"], S=S,
+                S_variation=env["Sv"], fkind=F.kind, scale=F.scale, shift=F.shift)
     far = max(env["rho_abs"]) >= 1e4 and not weak and not diag       # "far from the origin" = |x| / node spacing >= 1e4
     farmon = "far%dd" % dim
     c = _NoCount() if diag else ctx
@@ -785,14 +870,16 @@ def _clauses(ctx, case, F, f, lo, hi, bounds, pts, vals, nodes, cache, diag=Fals
 
 def _bounds_clause(ctx, case, F, bounds, pts, vals, vals_nb, nodes_nb, diag=False):
     env = _envelope(F, case, nodes_nb, pts, bounds)
+    if env["regime"] != "ok":
+        return [], False
     e = np.abs(np.array(vals, dtype=float) - np.array(vals_nb, dtype=float))
     k = _judge(_NoCount() if diag else ctx, "bounds", e, 2 * env["tol"], env["weak"], CLS[case["dim"]])
     fails = []
     if k is not None:
         fails.append(("bounds", "supplying function_boundaries changes the result beyond the rounding allowance",
                       dict(point=pts[k], with_bounds=vals[k], without_bounds=float(vals_nb[k]), tol=2 * env["tol"],
-                           rho_local=env["rho"], x_over_spacing=env["rho_abs"], S=env["S"], bounds=bounds,
-                           bclass=case["bclass"], fkind=F.kind)))
+                           rho_local=env["rho"], x_over_spacing=env["rho_abs"], S=env["S"], S_variation=env["Sv"],
+                           bounds=bounds, bclass=case["bclass"], fkind=F.kind, scale=F.scale, shift=F.shift)))
     return fails, not env["weak"]
 
 
@@ -975,6 +1062,7 @@ def _run_case(case, ctx):
     ctx.cls("dim%d" % dim)
     ctx.cls("func:" + F.kind)
     ctx.cls("offset:" + case["offclass"])
+    ctx.cls("magnitude:" + case.get("mclass", "unit"))
     ctx.cls("bounds:" + case["bclass"])
     if min(case["nn"]) == 2:
         ctx.cls("two-node-axis")
@@ -1029,15 +1117,16 @@ def _run_case(case, ctx):
     if not all(k in ref["got"] for k in range(len(pts))):
         return          # an in-area point raised: already reported
     vals = [ref["got"][k][0] for k in range(len(pts))]
-    if not all(math.isfinite(v) for v in vals):
+    regime = _envelope(F, case, ref["nodes"], pts, bounds)["regime"] if ref["nodes"] else "ok"
+    if regime == "ok" and not all(math.isfinite(v) for v in vals):
         bad = [k for k, v in enumerate(vals) if not math.isfinite(v)][0]
         ctx.viol("nonfinite:%s" % cname, "cache returned a non-finite value for a finite function inside the area",
                  point=pts[bad], got=vals[bad], want=f(*pts[bad]))
         return
+    seq_in = [s for s in case["orders"][0]["seq"] if s[0] == "i"]
     fails, decided = _clauses(ctx, case, F, f, lo, hi, bounds, pts, vals, ref["nodes"], ref["cache"])
 
     # ---- value bounds must not change results ----------------------------------------------------------
-    seq_in = [s for s in case["orders"][0]["seq"] if s[0] == "i"]
     if bounds is not None:
         c2, rec2, got2, nodes2 = _drive(ctx, cname, dim, f, lo, hi, res, False, None, seq_in, pts, outs, judge_outside=False, skey=skey)
         ctx.mon("caches")
@@ -1046,6 +1135,54 @@ def _run_case(case, ctx):
             bf, dec = _bounds_clause(ctx, case, F, bounds, pts, vals, v2, nodes2)
             fails += bf
             decided = decided or dec
+
+    # ---- scale equivariance: cache(shift + scale F) against shift + scale cache(F) --------------------------------------
+    if (F.scale != 1.0 or F.shift != 0.0) and regime == "ok" and ref["nodes"]:
+        F0 = F.base()
+        f0 = phys(F0, case["_centre"], ext)
+        sc, sh = F.scale, F.shift
+        pow2 = sh == 0.0 and math.frexp(sc)[0] == 0.5
+        b0 = None
+        if bounds is not None and sh == 0.0:
+            b0 = [bounds[0] / sc, bounds[1] / sc]
+            if not pow2 and b0[0] == b0[1] and bounds[0] != bounds[1]:
+                b0 = None
+        if bounds is None or b0 is not None:
+            c0, rec0, got0, nodes0 = _drive(_Quiet(ctx), cname, dim, f0, lo, hi, res, False, b0, seq_in, pts, outs,
+                                            judge_outside=False, skey=skey)
+            ctx.mon("caches")
+            if all(k in got0 for k in range(len(pts))) and nodes0:
+                env = _envelope(F, case, ref["nodes"], pts, bounds)
+                v0 = np.array([got0[k][0] for k in range(len(pts))], dtype=float)
+                with np.errstate(over="ignore", under="ignore", invalid="ignore"):
+                    want = sh + sc * v0 if sh != 0.0 else sc * v0
+                V = np.array(vals, dtype=float)
+                if pow2:
+                    # a power of two scales every sample, every intermediate and the result exactly while nothing leaves
+                    # the normal range: judged where the scaled values and their rounding errors (eps^2 S) stay normal
+                    aw = np.abs(want)
+                    normal = np.isfinite(want) & (aw < 1e300) & ((aw > 1e-290) | ((want == 0.0) & (v0 == 0.0)))
+                    if env["S"] > 1e-250 and env["S"] / abs(sc) > 1e-250 and normal.any():
+                        same = np.array([_bits(a) == _bits(b) for a, b in zip(V[normal], want[normal])])
+                        ctx.mon("scale_exact", int(normal.sum()))
+                        decided = True
+                        if not same.all():
+                            kk = int(np.flatnonzero(normal)[int(np.argmin(same))])
+                            fails.append(("scale", "cache of 2^k f differs from 2^k times the cache of f (every operation of the scheme is "
+                                          "linear in the samples, so a power of two must scale the result exactly)",
+                                          dict(point=pts[kk], scaled_cache=float(V[kk]), scale_times_cache=float(want[kk]),
+                                               scale=sc, rel=float(abs(V[kk] - want[kk]) / (abs(want[kk]) + 5e-324)),
+                                               n_differ=int((~same).sum()), fkind=F.kind, bounds=bounds)))
+                    else:
+                        ctx.skip("power-of-two scale outside the range where intermediates stay normal: exact equivariance not judged")
+                else:
+                    kq = _judge(ctx, "scale", np.abs(V - want), 2 * env["tol"], env["weak"], cname)
+                    decided = decided or not env["weak"]
+                    if kq is not None:
+                        fails.append(("scale", "cache of shift + scale f differs from shift + scale times the cache of f beyond the rounding "
+                                      "allowance", dict(point=pts[kq], scaled_cache=float(V[kq]), shift_scale_cache=float(want[kq]),
+                                                        tol=2 * env["tol"], scale=sc, shift=sh, S=env["S"], S_variation=env["Sv"],
+                                                        fkind=F.kind, bounds=bounds)))
 
     if ncomp >= 5 and len(runs) >= 2 and decided:
         ctx.nontrivial()
@@ -1071,7 +1208,7 @@ def _run_case(case, ctx):
                                                diag=True)
                         tfail = tfail + bf
         for clause, what, detail in fails:
-            if tfail is not None and not tfail:
+            if clause != "scale" and tfail is not None and not tfail:
                 ctx.viol(ROUNDOFF_KEY % cname,
                          "%s clause fails on an area far from the origin although the same function on the same area translated "
                          "to the origin satisfies every clause: %s" % (clause, what), clause=clause, offset_in_extents=off,
